@@ -58,6 +58,18 @@ def c14(tier):
         long4 = [k for k in uniq if len(k["k"]) == 4 and not k.get("all")]
         r.shuffle(long4)
         uniq = [k for k in uniq if len(k["k"]) < 4 or k.get("all")] + long4[:500]
+    # every short key with a replaced character is also tried with each look-alike of '/', '.', '\\' (fullwidth forms,
+    # division slash, one dot leader): a sanitizer that folds such characters must not produce path syntax
+    for k in list(uniq):
+        if "u" in k["k"] and len(k["k"]) <= 3:
+            for j in range(3, 9):
+                extra.append(dict(k, uvar=j))
+    # names around the file-name length limit (255 bytes) with dot tails
+    for n in (253, 254, 255, 256, 510):
+        for tail in ([".", "."], ["."], ["a", ".", "."], [".", ".", "a"], [".", ".", "/", "a"]):
+            ks = ["a"] * n + tail
+            d = [c if c in ("a", "-", "_", ".") else "_" for c in ks]
+            extra.append({"k": ks, "d": d, "all": True})
     cases = uniq + extra
     binp = C.build_engine("tiny")
     root = C.ensure_dir(os.path.join(C.BUILD, "runs", "c14-%d" % os.getpid()))
